@@ -17,6 +17,7 @@ package c04
 
 import (
 	"context"
+	"database/sql"
 	"errors"
 	"fmt"
 	"sort"
@@ -155,6 +156,8 @@ func (g *gen) block(depth int) *block {
 		switch k := g.r.Intn(8); {
 		case k < 3:
 			b.items = append(b.items, item{kind: "write", via: g.via()})
+		case k == 3 && g.r.Intn(3) == 0:
+			b.items = append(b.items, item{kind: "batch", via: g.via()})
 		case k == 3:
 			b.items = append(b.items, item{kind: "read", via: g.via()})
 		case k == 4:
@@ -206,6 +209,7 @@ type world struct {
 	// that carry the injected driver error: one driver call failed once, so at most one statement may
 	// report it; a second report means an earlier failure was kept somewhere and handed out again
 	injectedSeen int
+	reads        int
 }
 
 func (w *world) note(err error) error {
@@ -238,6 +242,57 @@ func (w *world) write(tx *gorm.DB) error {
 		w.state[id] = v
 	}
 	return err
+}
+
+// batch: a CreateInBatches of five rows in batches of two whose third or fifth row collides with an existing key.
+// The caller looks at the error and goes on. CreateInBatches runs its batches in a (nested) Transaction block of its
+// own: with nested transactions enabled (or at top level with the default transaction) none of its rows stay;
+// without a transaction of its own the batches before the failing one stay, and the statement says so
+// ("unless nested transactions are disabled").
+func (w *world) batch(tx *gorm.DB) error {
+	var exist []int64
+	for id := range w.state {
+		exist = append(exist, id)
+	}
+	if len(exist) == 0 {
+		return nil
+	}
+	sort.Slice(exist, func(i, j int) bool { return exist[i] < exist[j] })
+	rows := make([]KV, 5)
+	for i := range rows {
+		w.nextID++
+		rows[i] = KV{ID: w.nextID, V: fmt.Sprintf("b%d", w.nextID)}
+	}
+	at := 2 + 2*(int(w.nextID)%2) // row 2 (second batch) or row 4 (third batch)
+	rows[at].ID = exist[0]
+	res := tx.CreateInBatches(&rows, 2)
+	err := w.note(res.Error)
+	ownTx := !w.k.skipDefault && (w.outside || !w.k.noNested)
+	var inj *recdrv.ErrInjected
+	switch {
+	case err == nil:
+		w.add("a batch insert with a colliding key returned no error")
+	case errors.As(err, &inj) && !ownTx:
+		// without a transaction of its own and with an injected failure somewhere: what stayed is what the handle shows
+		var got []int64
+		ids := make([]int64, 0, 5)
+		for i, r := range rows {
+			if i != at {
+				ids = append(ids, r.ID)
+			}
+		}
+		if e := tx.Session(&gorm.Session{NewDB: true}).Model(&KV{}).Where("id IN ?", ids).Order("id").Pluck("id", &got).Error; e == nil {
+			for _, id := range got {
+				w.state[id] = fmt.Sprintf("b%d", id)
+			}
+		}
+	case !ownTx:
+		for i := 0; i < at/2*2; i++ {
+			w.state[rows[i].ID] = rows[i].V
+		}
+	}
+	w.trace = append(w.trace, fmt.Sprintf("batch insert of 5 (row %d collides, own transaction: %v) -> %v", at, ownTx, err))
+	return nil
 }
 
 func (w *world) mutate(tx *gorm.DB, kind string) error {
@@ -308,9 +363,56 @@ func render(m map[int64]string) string {
 
 func (w *world) read(tx *gorm.DB) error {
 	var rows []KV
-	err := w.note(tx.Order("id").Find(&rows).Error)
+	w.reads++
+	form := []string{"Find", "Rows", "Row"}[w.reads%3]
+	var err error
+	switch form {
+	case "Find":
+		err = w.note(tx.Order("id").Find(&rows).Error)
+	case "Rows":
+		// the same read through Rows() + ScanRows
+		var rs *sql.Rows
+		q := tx.Model(&KV{}).Order("id")
+		rs, err = q.Rows()
+		err = w.note(err)
+		if err == nil {
+			for rs.Next() {
+				var r KV
+				if e := q.ScanRows(rs, &r); e != nil {
+					err = e
+					break
+				}
+				rows = append(rows, r)
+			}
+			if e := rs.Err(); err == nil && e != nil {
+				err = w.note(e)
+			}
+			rs.Close()
+		}
+	case "Row":
+		// Row(): the number of rows and the highest key, read as one row on the block's connection; then the rows
+		var n, max sql.NullInt64
+		row := tx.Model(&KV{}).Select("count(*), max(id)").Row()
+		if row == nil {
+			err = errors.New("Row() returned nil")
+		} else {
+			err = w.note(row.Scan(&n, &max))
+		}
+		if err == nil {
+			wantMax := int64(0)
+			for id := range w.state {
+				if id > wantMax {
+					wantMax = id
+				}
+			}
+			if n.Int64 != int64(len(w.state)) || max.Int64 != wantMax {
+				w.add("Row() inside a block counted %d rows (highest key %d), the writes made so far define %d rows (highest key %d)", n.Int64, max.Int64, len(w.state), wantMax)
+			}
+			err = w.note(tx.Order("id").Find(&rows).Error)
+		}
+	}
 	if err != nil {
-		w.trace = append(w.trace, fmt.Sprintf("read -> %v", err))
+		w.trace = append(w.trace, fmt.Sprintf("read(%s) -> %v", form, err))
 		return err
 	}
 	got := map[int64]string{}
@@ -376,6 +478,12 @@ func (w *world) runBlock(db *gorm.DB, b *block, nested bool) (err error) {
 				if e := w.read(derive(tx, it.via)); e != nil {
 					return e
 				}
+			case "batch":
+				if it.via == 6 {
+					// (a SkipHooks session is fine, but keep the statement texts of via 6 for reads and writes)
+					it.via = 0
+				}
+				w.batch(derive(tx, it.via))
 			case "child":
 				var e error
 				func() {
@@ -605,7 +713,7 @@ type program struct {
 func genOutside(r *core.Rand) []item {
 	var out []item
 	for i, n := 0, r.Intn(4); i < n; i++ {
-		out = append(out, item{kind: core.Pick(r, []string{"write", "write", "read", "update", "delete", "ghost-update", "ghost-delete"}), via: r.Intn(len(viaNames)) * r.Intn(2)})
+		out = append(out, item{kind: core.Pick(r, []string{"write", "write", "read", "update", "delete", "ghost-update", "ghost-delete", "batch"}), via: r.Intn(len(viaNames)) * r.Intn(2)})
 	}
 	return out
 }
@@ -635,6 +743,8 @@ func (w *world) runOutside(items []item, faultFree bool) {
 			e = w.write(db)
 		case "read":
 			e = w.read(db)
+		case "batch":
+			e = w.batch(db)
 		default:
 			e = w.mutate(db, it.kind)
 		}
